@@ -16,7 +16,7 @@ from ..core import Run
 from ..pool import run_ops
 from ..tlc import read_export, run_tlc, validate_traces
 
-ALL = set(range(1, 51))
+ALL = set(range(1, 61))
 TIERS = {
     "quick": [dict(MaxItems=1, ItemUse=ALL, PrefixUse={1, 2, 3, 4, 5, 6, 7, 8}, QuoteUse={1, 2, 3, 4}, Concat=True),
               dict(MaxItems=2, ItemUse=ALL, PrefixUse={1}, QuoteUse={2, 3}, Concat=False),
@@ -71,6 +71,11 @@ def corpus_fstrings(cap_files: int) -> list[dict]:
                         seen.add(text)
                         out.append({"src": text, "origin": "corpus", "items": []})
     return out
+
+
+def cases_for_c04(run: Run, tier: str) -> list[dict]:
+    cs = generate(run, "quick")
+    return [{"src": c["src"], "mode": "eval", "origin": "c10"} for c in cs[:: (5 if tier == "quick" else 1)]]
 
 
 def cases_for(run: Run, tier: str) -> list[dict]:
